@@ -30,6 +30,35 @@ Definition tx_reader (fms : list (pbval str)) : list (option gobj) * option exn 
     end
   end.
 
+(* the grouped parser and parse_jelly_to_graph on the same frames (options from the first frame): per sink its statements and its
+   bindings; None when the run raises (the translated grouped parser refuses those: OutsideModel) *)
+Definition sink_obs (k : GenericStatementSink SN) : list gobj * list (str * gobj) :=
+  (GenericStatementSink__store k, GenericStatementSink__namespaces k).
+
+Definition tx_grouped (fms : list (pbval str)) : option (list (list gobj * list (str * gobj))) :=
+  match fms with
+  | [] => None
+  | f0 :: _ =>
+    match options_from_frame SN f0 true with
+    | Exn _ => None
+    | Val po =>
+      let '(r, _, sinks) := parse_jelly_grouped SN false po fms in
+      match r with Exn _ => None | Val _ => Some (map sink_obs sinks) end
+    end
+  end.
+
+Definition tx_to_graph (fms : list (pbval str)) : option (list gobj * list (str * gobj)) :=
+  match fms with
+  | [] => None
+  | f0 :: _ =>
+    match options_from_frame SN f0 true with
+    | Exn _ => None
+    | Val po =>
+      let '(r, _) := parse_jelly_to_graph SN po fms in
+      match r with Exn _ => None | Val k => Some (sink_obs k) end
+    end
+  end.
+
 (* ------------------------------------------------------------------ the writer chain *)
 From PJ.Gen Require Import LookupEncGen EncodeGen FlowsGen StreamsGen GenericSerializeGen.
 
